@@ -189,14 +189,37 @@ class SSeq(object):
         return 'SSeq(%s,n=%s)' % (self.kind, self.n)
 
 
+LAZY_BYTE_FACTS = True
+_PENDING_FACTS = []          # range facts of byte-valued base sequences for index terms used since the last solver call
+
+
+def take_pending_facts():
+    out = list(_PENDING_FACTS)
+    del _PENDING_FACTS[:]
+    return out
+
+
 def base_seq(prefix, kind='bytes', byte_valued=True):
     """fresh symbolic sequence; returns (seq, facts)"""
     f = z3.Function(fresh_name(prefix + '_a'), z3.IntSort(), z3.IntSort())
     n = fresh_int(prefix + '_n')
     facts = [n >= 0]
-    if byte_valued:
+    if byte_valued and not LAZY_BYTE_FACTS:
         j = z3.Int('j!q')
         facts.append(z3.ForAll([j], z3.And(f(j) >= 0, f(j) < 256), patterns=[f(j)]))
+    if byte_valued and LAZY_BYTE_FACTS:
+        # 0 <= f(t) < 256 holds for every index term t: instead of a quantified axiom, the instance for each index
+        # term that is actually built is handed to the solver (sound for any t, including bound-variable placeholders)
+        seen = set()
+
+        def at(i, f=f, seen=seen):
+            t = f(iv(i))
+            k = t.get_id()
+            if k not in seen:
+                seen.add(k)
+                _PENDING_FACTS.append(z3.And(t >= 0, t < 256))
+            return t
+        return SSeq(n, at, kind), facts
     return SSeq(n, lambda i, f=f: f(iv(i)), kind), facts
 
 
@@ -244,8 +267,28 @@ def clamp_index(v, n):
     return simp(z3.If(v < 0, z3.If(v + n < 0, z3.IntVal(0), v + n), z3.If(v > n, n, v)))
 
 
+ENTAILS = None        # set by the engine: entails(formula) under the current path condition (cheap budget)
+
+
+def _known(f):
+    f = simp(f)
+    if z3.is_true(f):
+        return True
+    if z3.is_false(f):
+        return False
+    if ENTAILS is None:
+        return False
+    return ENTAILS(f)
+
+
 def slice_seq(x, lo, hi, kind=None):
     n = x.n
+    # fast path: bounds already within range under the path condition -> no clamping terms (keeps formulas small)
+    lo_e = iv(lo) if lo is not None else z3.IntVal(0)
+    hi_e = iv(hi) if hi is not None else n
+    if _known(z3.And(lo_e >= 0, lo_e <= hi_e, hi_e <= n)):
+        lo_s = simp(lo_e)
+        return SSeq(simp(hi_e - lo_e), lambda i, xat=x._at, lo=lo_s: xat(simp(iv(i) + lo)), kind or x.kind, x.elem)
     lo = clamp_index(lo, n) if lo is not None else z3.IntVal(0)
     hi = clamp_index(hi, n) if hi is not None else n
     ln = simp(z3.If(hi > lo, hi - lo, z3.IntVal(0)))
